@@ -87,13 +87,16 @@ type pathCtx struct {
 	inInit      int
 	extraModel  map[string]uint64
 	pendingRecs []pendingRec
-	model      map[string]uint64 // a model of the current pc (nil if unknown)
-	known      map[string]uint64 // variables fixed to a constant by the pc
-	lastModel  map[string]uint64
-	s2started  bool
-	declared2  map[string]bool
-	flushed2   int
-	emit       func([]Decision) // immediate hand-off of sibling prefixes to the shared queue
+	model       map[string]uint64 // a model of the current pc (nil if unknown)
+	known       map[string]uint64 // variables fixed to a constant by the pc
+	lastModel   map[string]uint64
+	dom         map[string][]uint64 // exact finite domains of alphabet-constrained byte variables (projection of pc)
+	entangled   map[string]bool     // variables occurring in a multi-variable pc literal
+	domHits     int
+	s2started   bool
+	declared2   map[string]bool
+	flushed2    int
+	emit        func([]Decision) // immediate hand-off of sibling prefixes to the shared queue
 }
 
 func newPathCtx(prefix []Decision, solver, solver2 *sym.Solver, harness string) *pathCtx {
@@ -140,6 +143,7 @@ func (p *pathCtx) addPC(t *sym.Term) {
 	}
 	p.pc = append(p.pc, t)
 	p.learn(t)
+	p.refine(t)
 	if p.model != nil && sym.Eval(t, p.model) != 1 {
 		p.model = nil
 	}
@@ -178,6 +182,139 @@ func (p *pathCtx) learn(t *sym.Term) {
 			p.known[a.Name] = 0
 		}
 	}
+}
+
+// refine narrows variable domains by a new pc literal, or marks its variables entangled.
+func (p *pathCtx) refine(t *sym.Term) {
+	if p.dom == nil {
+		return
+	}
+	if t.Op == sym.OpAnd {
+		for _, a := range t.Args {
+			p.refine(a)
+		}
+		return
+	}
+	vs := map[string]*sym.Term{}
+	t.Vars(vs)
+	if len(vs) == 1 {
+		for name := range vs {
+			if d, ok := p.dom[name]; ok {
+				var nd []uint64
+				m := map[string]uint64{}
+				for _, x := range d {
+					m[name] = x
+					if sym.Eval(t, m) == 1 {
+						nd = append(nd, x)
+					}
+				}
+				p.dom[name] = nd
+				if len(nd) == 1 {
+					if p.known == nil {
+						p.known = map[string]uint64{}
+					}
+					p.known[name] = nd[0]
+				}
+			}
+		}
+		return
+	}
+	if p.entangled == nil {
+		p.entangled = map[string]bool{}
+	}
+	for name := range vs {
+		p.entangled[name] = true
+	}
+}
+
+// domDecide tries to decide the feasibility of cond and of its negation from variable
+// domains alone. ok=false: undecided, ask the solver.
+func (p *pathCtx) domDecide(cond *sym.Term) (t, f, ok bool) {
+	if p.dom == nil {
+		return
+	}
+	neg := false
+	c := cond
+	if c.Op == sym.OpNot {
+		neg = true
+		c = c.Args[0]
+	}
+	var parts []*sym.Term
+	isOr := false
+	switch c.Op {
+	case sym.OpAnd:
+		parts = c.Args
+	case sym.OpOr:
+		parts = c.Args
+		isOr = true
+	default:
+		parts = []*sym.Term{c}
+	}
+	// group parts by their single variable
+	type grp struct {
+		name  string
+		terms []*sym.Term
+	}
+	var groups []*grp
+	byName := map[string]*grp{}
+	for _, part := range parts {
+		vs := map[string]*sym.Term{}
+		part.Vars(vs)
+		if len(vs) != 1 {
+			return false, false, false
+		}
+		for name := range vs {
+			if _, has := p.dom[name]; !has || p.entangled[name] {
+				return false, false, false
+			}
+			g := byName[name]
+			if g == nil {
+				g = &grp{name: name}
+				byName[name] = g
+				groups = append(groups, g)
+			}
+			g.terms = append(g.terms, part)
+		}
+	}
+	// for each group: can its combined condition be true / false within the domain?
+	allCanTrue, anyCanFalse := true, false // for And
+	anyCanTrue, allCanFalse := false, true // for Or
+	m := map[string]uint64{}
+	for _, g := range groups {
+		canT, canF := false, false
+		for _, x := range p.dom[g.name] {
+			m[g.name] = x
+			v := !isOr
+			for _, tm := range g.terms {
+				r := sym.Eval(tm, m) == 1
+				if isOr {
+					v = v || r
+				} else {
+					v = v && r
+				}
+			}
+			if v {
+				canT = true
+			} else {
+				canF = true
+			}
+		}
+		delete(m, g.name)
+		allCanTrue = allCanTrue && canT
+		anyCanFalse = anyCanFalse || canF
+		anyCanTrue = anyCanTrue || canT
+		allCanFalse = allCanFalse && canF
+	}
+	if isOr {
+		t, f = anyCanTrue, allCanFalse
+	} else {
+		t, f = allCanTrue, anyCanFalse
+	}
+	if neg {
+		t, f = f, t
+	}
+	p.domHits++
+	return t, f, true
 }
 
 // simp substitutes variables fixed by the path condition.
@@ -355,7 +492,17 @@ func (p *pathCtx) branch(cond *sym.Term) bool {
 	}
 	var t, f bool
 	var mt, mf map[string]uint64
-	if p.model != nil && p.modelCovers() {
+	if dt, df, ok := p.domDecide(cond); ok {
+		t, f = dt, df
+		// the cached model stays valid only for the side it satisfies
+		if p.model != nil && p.modelCovers() {
+			if sym.Eval(cond, p.model) == 1 {
+				mt = p.model
+			} else {
+				mf = p.model
+			}
+		}
+	} else if p.model != nil && p.modelCovers() {
 		if sym.Eval(cond, p.model) == 1 {
 			t, mt = true, p.model
 			if f = p.checkSat(sym.Not(cond)); f {
